@@ -19,9 +19,7 @@ behaviour) and every command also on a *direct* copy of the store (`Mem.step`, n
 
 Answers: `tx=<out> direct=<out> b=<backend live view> d=<direct live view>`; the lines that end a
 transaction segment (outermost exit, explicit rollback / commit) add `ndc=T|F` — `NoDeadlineCrossed`
-evaluated on the backend at the start of the segment and the commands of the segment — and `rb=T|F` —
-`reentryBounded` so far in the current outermost block (F: the object owning the transaction has been
-entered a third time while two of its blocks were open; such segments are compared but not judged).
+evaluated on the backend at the start of the segment and the commands of the segment.
 Segments are syntactic: they start at the outermost `enter` and end at the matching `exit`.
 At every segment end the views are printed first and then the direct copy is re-synchronised with
 the backend, so every segment starts from `direct = backend`.
@@ -34,8 +32,6 @@ structure St where
   direct : Mem
   b0     : Mem            -- backend when the current segment started
   acc    : List Op        -- commands of the current segment
-  nest   : Nest := Nest.empty   -- context objects of the open blocks (syntactic)
-  rb     : Bool := true         -- `reentryBounded` so far in the current outermost block
 
 def parseKv? (s : String) : Option (Nat × Val) :=
   match s.splitOn "=" with
@@ -85,7 +81,7 @@ def showB (b : Bool) : String := if b then "T" else "F"
 /-- close a segment: report the proviso, start the next segment at the current backend -/
 def closeSeg (s : St) : St × String :=
   let ndc := NoDeadlineCrossed s.b0 s.acc
-  ({ s with b0 := s.ctx.st.b, acc := [] }, s!"ndc={showB ndc} rb={showB s.rb}")
+  ({ s with b0 := s.ctx.st.b, acc := [] }, s!"ndc={showB ndc}")
 
 /-- `@<o>` -/
 def parseObj? (w : String) : Option Nat :=
@@ -94,10 +90,9 @@ def parseObj? (w : String) : Option Nat :=
 /-- open a block: `x = none` an object of its own, `some o` the shared object `o` -/
 def enterStep (s : St) (m : TxMode) (x : Option Nat) : St × String :=
   let wasIn := !s.ctx.frames.isEmpty
-  let deep := match x with | some o => s.nest.deep o | none => false
   let (c', o) := s.ctx.step (match x with | some ob => .enterObj ob m | none => .enter m)
-  let s1 := { s with ctx := c', nest := s.nest.push x }
-  let s' := if wasIn then { s1 with rb := s.rb && !deep } else { s1 with b0 := c'.st.b, acc := [], rb := true }
+  let s1 := { s with ctx := c' }
+  let s' := if wasIn then s1 else { s1 with b0 := c'.st.b, acc := [] }
   (s', s!"tx={showOut o} " ++ views s')
 
 def step (s : St) (line : String) : St × String :=
@@ -132,7 +127,7 @@ def step (s : St) (line : String) : St × String :=
     if how ≠ "ok" ∧ how ≠ "exc" then (s, "bad-op") else
     let outer := s.ctx.frames.length = 1
     let (c', o) := s.ctx.step (.exit (how = "exc"))
-    let s1 := { s with ctx := c', nest := s.nest.pop }
+    let s1 := { s with ctx := c' }
     if outer then
       let (s2, n) := closeSeg s1
       ({ s2 with direct := s2.ctx.st.b }, s!"tx={showOut o} {n} " ++ views s2)
